@@ -23,10 +23,13 @@ def clauses_of(prop):
 C04_INV = ["ExactlyOnce", "OnTime", "InOrder", "ClockIsLatest", "LatencyRule"]
 
 
-def c04_models(tier, clock="after_newdate", order="by_time"):
+def c04_models(tier, clock="after_newdate", order="by_time", maxopt=None):
     cs = candidates_c04()
     modes = [(False, -1), (True, -1), (False, DAY)]
     folds = [FOLD_ALL, (G[1], G[2])]
+    if maxopt is not None:
+        return [env_model("deliver", G[:3], cs, [], maxopt, [0, L], folds, modes, maxcalls=4,
+                          invariants=C04_INV, clock=clock, order=order)]
     if tier == "quick":
         return [env_model("deliver", G[:3], cs, [], 3, [0, L], folds, modes, maxcalls=4,
                           invariants=C04_INV, clock=clock, order=order)]
@@ -154,6 +157,13 @@ def repro_models(tier):
     n = 4
     cs = bar_candidates(n)
     bads = [(0, "ok"), (2, "nan")]
-    return [env_model("trade-resets", G[:n], cs, range(1, n + 1), 1, [0, L], [FOLD_ALL, (G[1], G[3])], [(False, -1), (True, -1)],
-                      delays=(0, 1), spaces=("box", "discrete"), bads=bads, maxcalls=5, reset_anywhere=True, trade=True,
-                      invariants=["FifoDelay", "ExactlyOnce"])]
+    ms = [env_model("trade-resets", G[:n], cs, range(1, n + 1), 1, [0, L], [FOLD_ALL, (G[1], G[3])], [(False, -1), (True, -1)],
+                    delays=(0, 1), spaces=("box", "discrete"), bads=bads, maxcalls=5, reset_anywhere=True, trade=True,
+                    invariants=["FifoDelay", "ExactlyOnce"])]
+    # episodes of a sampled length requested through reset(episode_length=k), followed by plain resets
+    n2 = 5
+    ms.append(env_model("sampled-then-full", G[:n2], bar_candidates(n2, extras=False), range(1, n2 + 1), 0, [0], [FOLD_ALL],
+                        [(False, -1)], delays=(0,), maxcalls=4 if tier == "quick" else 5, reset_anywhere=True, trade=True,
+                        resetlens=(0, 2, 3),
+                        invariants=["ExactLength", "InFold", "Consecutive", "StartSetExact"]))
+    return ms
